@@ -16,24 +16,28 @@
 
    2. THE SAVE PROTOCOL as the code performs it, one action per statement that touches the file
       system, including what it does after a failed step:
-        Site = "file"    offsetDB.save (plugin/input/file/offset.go:233-307):
+        Site = "file"    offsetDB.save (plugin/input/file/offset.go):
                          open(tmp.<rand>) -> snapshot job by job under the job lock -> one Write ->
-                         Sync -> Rename(tmp, cur) -> deferred Close.  An Open error returns; Write and
-                         Sync errors are ONLY LOGGED and the sequence continues
-                         (deviation switch D_RenameAfterFailedStep, TRUE = the code as it is).
-        Site = "generic" offset.Save (offset/offset.go:40-58), used by journalctl and dmesg:
-                         Create(path+".tmp") (fixed name) -> callback Write -> deferred Close ->
-                         Rename; an Open/Write error returns before Rename; there is NO fsync
-                         (deviation switch D_NoFsync, TRUE = the code as it is).
+                         Sync -> Rename(tmp, cur) -> deferred Close.  An Open error returns; after a
+                         failed Write or Sync the temp file is removed and the save gives up (no
+                         Rename; the deferred Close still runs)            [repaired by commit f12db3f]
+        Site = "generic" offset.Save (offset/offset.go), used by journalctl and dmesg:
+                         Create(path+".tmp") (fixed name) -> callback Write -> Sync -> deferred Close ->
+                         Rename; an Open/Write/Sync error returns before Rename   [Sync: commit 5cb7036]
       Commit(job, stream) changes one job's vector atomically (jobProvider.commit stores under the
       job lock) and may happen between any two steps of a save, also between the per-job snapshots.
 
+      MUTANT SWITCHES.  The two mechanisms the property rests on can be switched off; with a switch
+      on the module describes the code as it was BEFORE the repair (DESIGN.md section 8, D6 / D7):
+        D_RenameAfterFailedStep  offsetDB.save only logs a failed Write/Sync and still renames
+        D_NoFsync                offset.Save has no fsync step
+      Both are FALSE in every configuration that describes the code.  The check also runs each mutant
+      and TLC MUST reject it (FailedStepKeepsOld / DurableBeforeReplace / AlwaysLoadable violated): this
+      keeps "a failed step is never followed by the rename" and "fsync before rename" shown necessary,
+      and the mutant's counterexample is a fault schedule that is replayed on the real code.
+
    3. THE PROPERTIES, declaratively, over every disk state a reader can meet -- the live view and
       every post-crash view:  AlwaysLoadable, NeverAhead, DurableBeforeReplace, FailedStepKeepsOld.
-      With Unconditional = FALSE they are checked on all behaviours in which no named deviation has
-      fired (residual: everything else the code does is right); with Unconditional = TRUE they are
-      checked on all behaviours (faithful: TLC must produce the counterexample D6 resp. D7; fixed =
-      deviation switched off: must hold).
 
    File content is a sequence of line-level tokens: H(src) (the five header lines of an entry),
    S(src, stream, off) (one stream line) and T (a torn line).  The byte-level format is the
@@ -48,11 +52,10 @@ CONSTANTS Site,                      \* "file" | "generic"
           MaxCommits, MaxSaves,
           Faults,                    \* steps that may fail: subset of {"open","write","sync","rename","close"}
           MaxFaults,
-          D_RenameAfterFailedStep,   \* offsetDB.save: Write/Sync errors are logged, Rename still happens
-          D_NoFsync,                 \* offset.Save: no fsync before Rename
+          D_RenameAfterFailedStep,   \* MUTANT (pre-f12db3f): Write/Sync errors are logged, Rename still happens
+          D_NoFsync,                 \* MUTANT (pre-5cb7036): offset.Save has no fsync before Rename
           MidSaveCommits,            \* commits may interleave with the steps of a save
           CrashAction,               \* explore an explicit Crash step as well
-          Unconditional,             \* see above
           DoExport,                  \* print replayable schedules
           MaxIno
 
@@ -65,7 +68,7 @@ VARIABLES
   \* file system
   dir, curDur, vol, base, keep, nextIno,
   \* the saving goroutine (o.mu held from PBegin to the return)
-  pc, fd, tmpName, idx, buf, failed, dev, bad,
+  pc, fd, tmpName, idx, buf, failed, bad,
   \* environment and history
   jobs,      \* jobs[j][s] : offset of stream s of job j, -1 = none            (Job.offsets, under Job.mu)
   held,      \* held[j] : every vector job j has held so far
@@ -76,7 +79,7 @@ VARIABLES
   crashed
 
 fsvars == <<dir, curDur, vol, base, keep, nextIno>>
-pvars  == <<pc, fd, tmpName, idx, buf, failed, dev, bad>>
+pvars  == <<pc, fd, tmpName, idx, buf, failed, bad>>
 evars  == <<jobs, held, ncommits, nsaves, nfaults, sched, sfail, mid, crashed>>
 vars   == <<fsvars, pvars, evars>>
 
@@ -162,43 +165,47 @@ Relevant == {"open", "write", "sync"}                              \* the steps 
 PBegin ==      \* o.mu.Lock (file) / call of Save (generic)
   /\ pc = "idle"
   /\ pc' = "open" /\ failed' = {} /\ buf' = <<>> /\ idx' = 1
-  /\ UNCHANGED <<fd, tmpName, dev, bad>> /\ UNCHANGED fsvars
+  /\ UNCHANGED <<fd, tmpName, bad>> /\ UNCHANGED fsvars
 
 POpen(ok, name) ==
   /\ pc = "open"
   /\ tmpName' = name
   /\ IF ok THEN /\ FsOpen(name, TRUE) /\ fd' = OpenTarget(name) /\ pc' = "snap" /\ failed' = failed
            ELSE /\ UNCHANGED fsvars /\ fd' = 0 /\ pc' = "idle" /\ failed' = failed \cup {"open"}   \* return
-  /\ UNCHANGED <<idx, buf, dev, bad>>
+  /\ UNCHANGED <<idx, buf, bad>>
 
 PSnap ==       \* one iteration of `for _, job := range snapshot` under job.mu (generic: the value passed in)
   /\ pc = "snap"
   /\ IF idx <= NJobs THEN /\ buf' = buf \o Entry(idx, jobs[idx]) /\ idx' = idx + 1 /\ pc' = pc
                      ELSE /\ pc' = "write" /\ UNCHANGED <<buf, idx>>
-  /\ UNCHANGED <<fd, tmpName, failed, dev, bad>> /\ UNCHANGED fsvars
+  /\ UNCHANGED <<fd, tmpName, failed, bad>> /\ UNCHANGED fsvars
 
 PWrite(ok, data) ==
   /\ pc = "write"
   /\ FsWrite(fd, data)
   /\ IF ok THEN /\ failed' = failed
-                /\ IF Site = "generic" /\ D_NoFsync
-                     THEN pc' = "close" /\ dev' = dev \cup {"D_NoFsync"}
-                     ELSE pc' = "sync" /\ dev' = dev
+                /\ pc' = IF Site = "generic" /\ D_NoFsync THEN "close" ELSE "sync"
            ELSE /\ failed' = failed \cup {"write"}
-                /\ IF Site = "file" /\ D_RenameAfterFailedStep
-                     THEN pc' = "sync" /\ dev' = dev \cup {"D_RenameAfterFailedStep"}     \* error only logged
-                     ELSE pc' = "abort" /\ dev' = dev
+                /\ pc' = IF Site = "generic" THEN "close"                               \* return err (deferred Close)
+                         ELSE IF D_RenameAfterFailedStep THEN "sync"                    \* mutant: error only logged
+                         ELSE "unlink"                                                  \* os.Remove(tmp); return
   /\ UNCHANGED <<fd, tmpName, idx, buf, bad>>
 
 PSync(ok) ==
   /\ pc = "sync"
-  /\ IF ok THEN /\ FsSync(fd) /\ failed' = failed /\ dev' = dev
+  /\ IF ok THEN /\ FsSync(fd) /\ failed' = failed
                 /\ pc' = IF Site = "file" THEN "rename" ELSE "close"
            ELSE /\ UNCHANGED fsvars /\ failed' = failed \cup {"sync"}
-                /\ IF Site = "file" /\ D_RenameAfterFailedStep
-                     THEN pc' = "rename" /\ dev' = dev \cup {"D_RenameAfterFailedStep"}   \* error only logged
-                     ELSE pc' = "abort" /\ dev' = dev
+                /\ pc' = IF Site = "generic" THEN "close"
+                         ELSE IF D_RenameAfterFailedStep THEN "rename"                  \* mutant: error only logged
+                         ELSE "unlink"
   /\ UNCHANGED <<fd, tmpName, idx, buf, bad>>
+
+PUnlink(ok) == \* `_ = os.Remove(tmp)` on the error path of offsetDB.save; its own error is ignored
+  /\ pc = "unlink"
+  /\ IF ok THEN FsUnlink(tmpName) ELSE UNCHANGED fsvars
+  /\ pc' = "close"
+  /\ UNCHANGED <<fd, tmpName, idx, buf, failed, bad>>
 
 PRename(ok) ==
   /\ pc = "rename"
@@ -207,19 +214,13 @@ PRename(ok) ==
                   \cup (IF ok /\ ~Durable(i) THEN {"replaced_by_undurable"} ELSE {})
   /\ IF ok THEN FsRename(tmpName, "cur") ELSE UNCHANGED fsvars
   /\ pc' = IF Site = "file" THEN "close" ELSE "idle"
-  /\ UNCHANGED <<fd, tmpName, idx, buf, failed, dev>>
+  /\ UNCHANGED <<fd, tmpName, idx, buf, failed>>
 
 PClose(ok) ==  \* the descriptor is released whether or not close reports an error; the error is ignored/logged
   /\ pc = "close"
   /\ fd' = 0
   /\ pc' = IF Site = "file" THEN "idle" ELSE IF failed \cap Relevant = {} THEN "rename" ELSE "idle"
-  /\ UNCHANGED <<tmpName, idx, buf, failed, dev, bad>> /\ UNCHANGED fsvars
-
-PAbort ==      \* error return of the repaired file variant (close, remove temp) and of offset.Save (close)
-  /\ pc = "abort"
-  /\ fd' = 0 /\ pc' = "idle"
-  /\ IF Site = "file" THEN FsUnlink(tmpName) ELSE UNCHANGED fsvars
-  /\ UNCHANGED <<tmpName, idx, buf, failed, dev, bad>>
+  /\ UNCHANGED <<tmpName, idx, buf, failed, bad>> /\ UNCHANGED fsvars
 
 -----------------------------------------------------------------------------
 (* environment *)
@@ -258,7 +259,7 @@ Crash ==       \* power loss: the durable state becomes the state
          /\ base' = IF i = 0 THEN base ELSE [base EXCEPT ![i] = c]
          /\ keep' = IF i = 0 THEN keep ELSE [keep EXCEPT ![i] = Len(c)]
   /\ crashed' = TRUE /\ pc' = "crashed" /\ fd' = 0
-  /\ UNCHANGED <<nextIno, tmpName, idx, buf, failed, dev, bad, jobs, held, ncommits, nsaves, nfaults, sched, mid, sfail>>
+  /\ UNCHANGED <<nextIno, tmpName, idx, buf, failed, bad, jobs, held, ncommits, nsaves, nfaults, sched, mid, sfail>>
 
 Init ==
   /\ dir = [n \in Names |-> IF n = "cur" THEN 1 ELSE 0]
@@ -267,7 +268,7 @@ Init ==
   /\ base = vol
   /\ keep = [i \in Inodes |-> Len(vol[i])]
   /\ nextIno = 2
-  /\ pc = "idle" /\ fd = 0 /\ tmpName = "t1" /\ idx = 1 /\ buf = <<>> /\ failed = {} /\ dev = {} /\ bad = {}
+  /\ pc = "idle" /\ fd = 0 /\ tmpName = "t1" /\ idx = 1 /\ buf = <<>> /\ failed = {} /\ bad = {}
   /\ jobs = InitVec /\ held = [j \in Jobs |-> {InitVec[j]}]
   /\ ncommits = 0 /\ nsaves = 0 /\ nfaults = 0 /\ sched = <<>> /\ mid = FALSE /\ crashed = FALSE
   /\ sfail = {}
@@ -283,7 +284,7 @@ Next ==
      \/ \E ok \in Outcomes("sync")   : Do(PSync(ok), ok, "sync")
      \/ \E ok \in Outcomes("rename") : Do(PRename(ok), ok, "rename")
      \/ \E ok \in Outcomes("close")  : Do(PClose(ok), ok, "close")
-     \/ Do(PAbort, TRUE, "abort")
+     \/ \E ok \in Outcomes("unlink") : Do(PUnlink(ok), ok, "unlink")
      \/ Crash
 
 Spec == Init /\ [][Next]_vars
@@ -291,7 +292,7 @@ Spec == Init /\ [][Next]_vars
 -----------------------------------------------------------------------------
 (* 3. properties *)
 TypeOK ==
-  /\ pc \in {"idle", "open", "snap", "write", "sync", "rename", "close", "abort", "crashed"}
+  /\ pc \in {"idle", "open", "snap", "write", "sync", "rename", "close", "unlink", "crashed"}
   /\ nextIno <= MaxIno + 1
   /\ \A j \in Jobs : jobs[j] \in held[j]
 
@@ -304,11 +305,10 @@ DurableBeforeReplaceP == "replaced_by_undurable" \notin bad
 \* a failed Open/Write/Sync was never followed by a (successful) Rename in the same save
 FailedStepKeepsOldP   == "replaced_after_failed_step" \notin bad
 
-Scope == Unconditional \/ dev = {}
-AlwaysLoadable       == Scope => AlwaysLoadableP
-NeverAhead           == Scope => NeverAheadP
-DurableBeforeReplace == Scope => DurableBeforeReplaceP
-FailedStepKeepsOld   == Scope => FailedStepKeepsOldP
+AlwaysLoadable       == AlwaysLoadableP
+NeverAhead           == NeverAheadP
+DurableBeforeReplace == DurableBeforeReplaceP
+FailedStepKeepsOld   == FailedStepKeepsOldP
 
 -----------------------------------------------------------------------------
 (* export of every replayable schedule (commits only between saves) with the declarative expectation:
@@ -323,7 +323,7 @@ Steps(sc) == IF sc = <<>> THEN <<>>
                      ELSE [op |-> "save", job |-> 0, stream |-> 0, fails |-> Head(sc)[2]])>> \o Steps(Tail(sc))
 ExportRec == [site |-> Site, steps |-> Steps(sched),
               mayReplace |-> [k \in 1..Len(SaveFails(sched)) |-> SaveFails(sched)[k] \cap Relevant = {}],
-              modelBad |-> bad, modelDev |-> dev]
+              modelBad |-> bad]
 Export == (DoExport /\ pc = "idle" /\ nsaves = MaxSaves /\ ~mid /\ ~crashed /\ Len(SaveFails(sched)) = MaxSaves)
              => PrintT(ToJson(ExportRec))
 =============================================================================
